@@ -929,7 +929,7 @@ def lit(b):
     by B (COQ_PRELUDE) inside Coq: elaborating [..]%N literals directly is ~10x slower."""
     if not b:
         return "(@nil N)"
-    return "(B %d [%s])" % (len(b), ";".join(str(int.from_bytes(b[i:i + 7], "big")) for i in range(0, len(b), 7)))
+    return "(B %d%%uint63 [%s]%%uint63)" % (len(b), ";".join(str(int.from_bytes(b[i:i + 7], "big")) for i in range(0, len(b), 7)))
 
 
 COQ_PRELUDE = """From Coq Require Import List NArith ZArith Bool Uint63. Import ListNotations.
@@ -1503,7 +1503,7 @@ def run(ctx):
         ctx.count("corpus")
     # 2. generated worlds
     # (identifier length, every bit of every field?, stride otherwise); 300: identifier and encrypted data span TLV fragments
-    plan = ([(17, True, 1), (36, False, 16), (1, False, 16), (300, False, 64)] if not ctx.thorough else
+    plan = ([(17, True, 1), (36, False, 4), (1, False, 1), (300, False, 64)] if not ctx.thorough else
             [(17, True, 1), (36, True, 1), (1, True, 1), (6, True, 1), (300, False, 8), (17, True, 1), (36, True, 1)])
     worlds = []
     for id_len, all_bits, stride in plan:
